@@ -123,6 +123,12 @@ func runCase(c Case, r *runlog.R) error {
 		if terr := typed("Unpack of "+k, gerr); terr != nil {
 			return terr
 		}
+		if w.ThroughExpr {
+			// a name leads through a setting that is an expression itself: the library evaluates it and walks on
+			// in its value (a re-entry there is a cycle), the model does not look into values
+			r.Class("name leads through an expression (termination only)")
+			continue
+		}
 		if w.SawCycle {
 			anyCycle = true
 			nt = true
@@ -186,7 +192,7 @@ func runCase(c Case, r *runlog.R) error {
 	// is wrongly taken for cyclic shows up as a key that leads to a container, and in the count.)
 	w.Reset()
 	whole, werr := w.Eval(c.Root)
-	ownOnly := !w.FromEnv && !w.FromResolver // values from Env configs and resolvers carry paths of their own
+	ownOnly := !w.FromEnv && !w.FromResolver && !w.ThroughExpr // values from Env configs and resolvers carry paths of their own
 	if !w.SawCycle && werr == nil && ownOnly && !splicedContainer(c.Root, w) {
 		n := countPrims(whole)
 		for _, k := range keys {
@@ -435,7 +441,7 @@ func siblingsVariant(cfg *ucfg.Config, c Case, w *vx.World, opts []ucfg.Option, 
 	for i, k := range c.Root.Keys {
 		w.Reset()
 		v, err := w.Eval(c.Root.Vals[i])
-		if w.SawCycle && (w.Absorbed || err != vx.ErrCyclic) {
+		if w.ThroughExpr || w.SawCycle && (w.Absorbed || err != vx.ErrCyclic) {
 			return nil // an absorbed cycle somewhere: values are context dependent, nothing to compare
 		}
 		if err != nil {
